@@ -114,6 +114,7 @@ class PropertyRun:
         self.lemma_names: List[str] = []
         self.vc_axioms: Dict[str, list] = {}
         self.vc_contract: Dict[str, Any] = {}
+        self.deferred: List[str] = []
 
     # ------------------------------------------------------------ tier P
     def gen_vcs(self):
@@ -122,6 +123,9 @@ class PropertyRun:
                 continue
             if not c.verify:
                 self.assumptions.append(f"assumed contract (not verified here): {c.key} - {c.doc}")
+                continue
+            if c.tier == "thorough" and self.tier == "quick":
+                self.deferred.append(c.key)
                 continue
             try:
                 if c.source:
@@ -184,7 +188,7 @@ class PropertyRun:
         for v in self.vcs:
             neg = z3.Not(v.goal) if v.expect == "unsat" else z3.BoolVal(True)
             smt = solve.vc_to_smt2(v.hyps, neg, self.vc_axioms[v.name])
-            to = FP_TIMEOUT if "fp." in smt else Z3_TIMEOUT
+            to = (FP_TIMEOUT if self.tier == "quick" else 3 * FP_TIMEOUT) if "fp." in smt else Z3_TIMEOUT
             if v.expect == "sat":
                 to = 2.0      # reachability probes: only `unsat` (vacuity) matters; unknown = not refuted
             items.append((v.name, smt, to))
@@ -384,6 +388,7 @@ class PropertyRun:
             "proved_lemmas": [n for n in self.lemma_names if self.results.get(n, {}).get("result") == "unsat"],
             "solver_time_s": by_solver, "solve_wall_s": round(getattr(self, "solve_wall", 0.0), 2),
             "reachability_checks": sum(1 for v in self.vcs if v.expect == "sat"),
+            "deferred_to_thorough_tier": self.deferred,
             "out_of_reach": self.out_of_reach, "stale": self.stale, "undecided": self.undecided,
             "obligation_results": {v.name: {"result": self.results[v.name]["result"], "solver": self.results[v.name]["solver"],
                                             "time_s": self.results[v.name]["time_s"], "clause": v.clause}
